@@ -411,7 +411,9 @@ def run_item(harness, item, *, tier="quick", max_paths=256, timeout_ms=20000, ce
             except ReplayInvalid:
                 continue
             except Exception as e:
-                res.validation_errors.append(f"concrete run raised {type(e).__name__}: {e}")
+                note = f"validation point skipped: concrete run raised {type(e).__name__}: {str(e)[:120]}"
+                if note not in res.notes:
+                    res.notes.append(note)
                 continue
             got = {o.label: o for o in cenv.obligations if o.kind == "eq"}
             for label, term in impl_terms.items():
